@@ -343,4 +343,66 @@ func extra11C17(c *Ctx) {
 		}
 	}
 	c.Expect(rule, "branch conditions in the two stream writers", n, 2)
+
+	rule = "C17-R20"
+	c.Rule(rule, "a stream ends with a final record or an error: every return of llmServer.Completion that is not an error return is on the true edge of the decoded record's Done field (the record was just handed to the callback), or hands back ctx.Err() inside the `<-ctx.Done()` case where it is non-nil — `return ctx.Err()` elsewhere (the token-repeat abort) and a plain `return nil` after the scan loop end the client's stream with neither")
+	f := c.Fn(rule, "llm", "llmServer.Completion")
+	if f == nil {
+		return
+	}
+	info := f.Info()
+	g := c.G(f)
+	ctxParam := paramAt(f, 0)
+	isCtxCall := func(e ast.Expr, method string) bool {
+		call, isC := ast.Unparen(e).(*ast.CallExpr)
+		if !isC {
+			return false
+		}
+		se, isSel := call.Fun.(*ast.SelectorExpr)
+		return isSel && se.Sel.Name == method && isIdentOf(info, se.X, ctxParam)
+	}
+	var doneCases []*ast.CommClause
+	ast.Inspect(f.Body, func(nd ast.Node) bool {
+		if cc, ok := nd.(*ast.CommClause); ok && cc.Comm != nil {
+			var rx ast.Expr
+			switch st := cc.Comm.(type) {
+			case *ast.ExprStmt:
+				rx = st.X
+			case *ast.AssignStmt:
+				if len(st.Rhs) == 1 {
+					rx = st.Rhs[0]
+				}
+			}
+			if ue, isU := ast.Unparen(rx).(*ast.UnaryExpr); isU && ue.Op == token.ARROW && isCtxCall(ue.X, "Done") {
+				doneCases = append(doneCases, cc)
+			}
+		}
+		return true
+	})
+	nOK := 0
+	for _, ex := range g.Returns() {
+		if g.ReturnKind(ex) == core.RetError {
+			continue
+		}
+		ok := false
+		for _, a := range g.AtomsAt(ex.Loc) {
+			if se, isSel := ast.Unparen(a.Expr).(*ast.SelectorExpr); isSel && a.Val {
+				if fv := core.FieldVar(info, se); fv != nil && fv.Name() == "Done" && strings.HasSuffix(core.ObjNameOfType(info.TypeOf(se.X)), "CompletionResponse") {
+					ok = true
+				}
+			}
+		}
+		if !ok && len(ex.Return.Results) == 1 && isCtxCall(ex.Return.Results[0], "Err") {
+			for _, cc := range doneCases {
+				if within(cc, ex.Return) {
+					ok = true
+				}
+			}
+		}
+		if ok {
+			nOK++
+		}
+		c.Check(rule, f.Key()+" non-error return only after the final record", c.Pos(ex.Return), ok, "`"+core.ExprString(ex.Return.Results[0])+"` is returned where neither the final record was delivered nor the context is known to be done")
+	}
+	c.Expect(rule, "non-error returns of Completion", nOK, 2)
 }
